@@ -51,7 +51,10 @@ ReturnCheck(e) ==
   LET sols == [i \in 1..Len(e.sols) |-> ToSet(e.sols[i])]
       bad == {i \in 1..Len(sols) : BadModel(sols[i]) # ""}
       hasmodel == Len(sols) > 0
-      unsat == ~Dpll(InCnf \cup Units(Assum))
+      \* a planted model shipped with the input (checked here, not trusted) decides satisfiability without the oracle
+      planted == ToSet(T.planted)
+      unsat == IF T.planted # <<>> /\ Consistent(planted) /\ SatBy(planted, InCnf) /\ Assum \subseteq planted
+               THEN FALSE ELSE ~Dpll(InCnf \cup Units(Assum))
       w1 == IF bad # {} THEN BadModel(sols[CHOOSE i \in bad : \A j \in bad : i <= j])
             ELSE IF e.has_first /\ BadModel(ToSet(e.first)) # "" THEN BadModel(ToSet(e.first))
             ELSE IF Cardinality({sols[i] : i \in 1..Len(sols)}) # Len(sols) THEN "Model.duplicate"
